@@ -462,6 +462,76 @@ func main() {
 		return ok && sel.Sel.Name == "Amount"
 	})
 
+	// Writers of ANOTHER module's state: every function of /repo/x that calls, through a selector, a method whose
+	// name says it writes (Set*/Save*/Delete*/Remove*/Add*/Assign*/Unassign*/Increase*/Decrease*/Upsert*/Update*) and
+	// that is declared as a keeper method in a different module of /repo/x but not in the caller's own module.
+	// Audit verdicts of the form "the index is consistent by construction" rest on these callers too (e.g. the
+	// address-rotation blocks of x/recovery rewriting gov actors and permission indexes): they are pinned by fingerprint.
+	moduleOf := func(dir string) string {
+		parts := strings.Split(dir, "/")
+		if len(parts) >= 2 && parts[0] == "x" {
+			return parts[1]
+		}
+		return dir
+	}
+	writerPrefix := []string{"Set", "Save", "Delete", "Remove", "Add", "Assign", "Unassign", "Increase", "Decrease", "Upsert", "Update", "Whitelist", "Blacklist"}
+	isWriterName := func(n string) bool {
+		for _, p := range writerPrefix {
+			if strings.HasPrefix(n, p) && len(n) > len(p) {
+				return true
+			}
+		}
+		return false
+	}
+	methodModules := map[string]map[string]bool{} // method name -> modules declaring a method of that name
+	for _, f := range all {
+		if f.decl.Recv != nil {
+			if methodModules[f.short] == nil {
+				methodModules[f.short] = map[string]bool{}
+			}
+			methodModules[f.short][moduleOf(f.pkgDir)] = true
+		}
+	}
+	type fw struct{ caller, callees, fp string }
+	var foreign []fw
+	for _, f := range all {
+		own := moduleOf(f.pkgDir)
+		callees := map[string]bool{}
+		ast.Inspect(f.decl.Body, func(n ast.Node) bool {
+			c, ok := n.(*ast.CallExpr)
+			if !ok {
+				return true
+			}
+			sel, ok := c.Fun.(*ast.SelectorExpr)
+			if !ok || !isWriterName(sel.Sel.Name) {
+				return true
+			}
+			mods := methodModules[sel.Sel.Name]
+			if len(mods) == 0 || mods[own] {
+				return true
+			}
+			for m := range mods {
+				callees[m+"."+sel.Sel.Name] = true
+			}
+			return true
+		})
+		if len(callees) == 0 {
+			continue
+		}
+		var cs []string
+		for c := range callees {
+			cs = append(cs, c)
+		}
+		sort.Strings(cs)
+		var buf bytes.Buffer
+		if err := printer.Fprint(&buf, token.NewFileSet(), f.decl); err != nil {
+			errs = append(errs, "print "+f.id()+": "+err.Error())
+		}
+		hsum := sha256.Sum256(buf.Bytes())
+		foreign = append(foreign, fw{f.id(), strings.Join(cs, " "), hex.EncodeToString(hsum[:8])})
+	}
+	sort.Slice(foreign, func(i, j int) bool { return foreign[i].caller < foreign[j].caller })
+
 	var sb strings.Builder
 	sb.WriteString("(* GENERATED by harness/cmd/gen_panics from the working tree -- do not edit. *)\n")
 	sb.WriteString("From Sekai Require Import Base.Prelude.\nLocal Open Scope string_scope.\n")
@@ -492,6 +562,15 @@ func main() {
 			}
 			sb.WriteString("  (" + coqStr(id) + ", " + coqStr(fingerprint[id]) + ")" + sep + "\n")
 		}
+	}
+	sb.WriteString("].\n")
+	sb.WriteString("(* (function, writer methods of OTHER modules it calls, fingerprint of the function) *)\nDefinition foreign_writers : list (string * string * string) := [\n")
+	for i, w := range foreign {
+		sep := ";"
+		if i == len(foreign)-1 {
+			sep = ""
+		}
+		sb.WriteString("  (" + coqStr(w.caller) + ", " + coqStr(w.callees) + ", " + coqStr(w.fp) + ")" + sep + "\n")
 	}
 	sb.WriteString("].\n")
 	sb.WriteString("Definition roots : list string := [\n")
